@@ -521,6 +521,15 @@ def check_C12(ctx):
             a = dict(s0); a['id'] = s0['id'] + '#nofilter'
             b = dict(s0); b['id'] = s0['id'] + '#filter'; b['filter'] = True; b['twin'] = a['id']; b['label'] = 'e2e-filter/' + s0['label']
             pairs += [a, b]
+        # IPv6 replies behind a hop-by-hop options header: does the capture filter accept what the matcher turns into a hop?
+        for s0 in [x for x in scen if x['variant'] == 'icmp6'][:1 if ctx.quick() else 4] + [x for x in scen if x['variant'] == 'udp6'][:1 if ctx.quick() else 4]:
+            h = json.loads(json.dumps(s0)); h['id'] = s0['id'] + '/hbh'; h['label'] = s0['label'] + '/hop-by-hop'
+            for reps in h['path'].values():
+                for r in reps:
+                    r['hbh'] = True
+            a = dict(h); a['id'] = h['id'] + '#nofilter'
+            b = dict(h); b['id'] = h['id'] + '#filter'; b['filter'] = True; b['twin'] = a['id']; b['label'] = 'e2e-filter/' + h['label']
+            pairs += [a, b]
         rule = ('(1) the classic-BPF instructions of every filter configuration (static programs; TCP 4-tuple program for address/port byte patterns at '
                 'sign/endianness boundaries) are extracted from the working tree and interpreted by Bpf.tla over the frame class space (ethertype, protocol, IHL 0..15, '
                 'fragment words, each address/port byte equal/different, all 256 TCP flag bytes, frame lengths around every load offset, IPv6 next-header chains) '
